@@ -14,7 +14,7 @@
 (*   c  classification labels computed by the spec (wall class, fold, ...)   *)
 (*   v  failed clauses, << <<clause, expected>>, ... >>; empty = conforming  *)
 (***************************************************************************)
-EXTENDS OpsTz, OpsCalendar, TLCExt
+EXTENDS OpsArith, OpsCalendar, TLCExt
 
 T == JsonDeserialize(IOEnv.PV_TRACE)
 VARIABLES l, nbad
@@ -97,6 +97,28 @@ J_add_fixed(e) == LET s == Src(e)
                           R(<<e.a.entry, "src", ClassOf(s), "dst", ClassOf(x), B(OffOf(s) # OffOf(x))>>,
                             CmpOut(e.post, x, "DateTime"))
 
+\* ---- C04 -----------------------------------------------------------------------------
+\* entry points that shift backwards by the given components
+Backward == {"subtract", "minus_dur", "plus_neg_dur", "minus_td"}
+J_add_cal(e) ==
+  LET s == Src(e)
+      c == IF e.a.entry \in Backward THEN NegC(e.a.c) ELSE e.a.c
+  IN IF ~CalInRange(s.w, c) THEN R(<<"out-of-range">>, <<>>)
+     ELSE LET x == Add(s, c)
+              tgt == IF HasCal(c) /\ ~IsNaive(s) THEN Classify(Z(s.z), WDS(AddCalWall(s.w, c))) ELSE "unique"
+          IN R(<<e.a.entry, B(HasCal(c)), B(c.y # 0 \/ c.mo # 0), "target", tgt, "clamped",
+                 B(ShiftedYM(s.w, c)[3] # s.w[3]), "offchg", B(OffOf(s) # OffOf(x))>>,
+               CmpOut(e.post, x, "DateTime"))
+J_add_cal_date(e) ==
+  LET w == e.pre[1].w
+      c == IF e.a.entry \in Backward THEN NegC(e.a.c) ELSE e.a.c
+  IN IF ~CalInRange(<<w[1], w[2], w[3], 0, 0, 0, 0>>, c) THEN R(<<"out-of-range">>, <<>>)
+     ELSE LET x == AddCalDate(w, c) IN
+          R(<<e.a.entry, "clamped", B(ShiftedYM(w, c)[3] # w[3])>>,
+            IF e.post.k = "exc" THEN << <<"unexpected-exception", e.post.names>> >>
+            ELSE IF e.post.k # "date" THEN << <<"kind", e.post.k>> >>
+            ELSE V("class", e.post.cls = "Date", "Date") \o V("date", e.post.w = x, x))
+
 \* ---- C15 -----------------------------------------------------------------------------
 J_year_prims(e) == LET y == e.a.y IN
    R(<<B(IsLeap(y)), B(IsLongYear(y))>>,
@@ -138,6 +160,8 @@ Judge(e) == CASE e.op = "in_tz" -> J_in_tz(e)
               [] e.op = "replace" -> J_replace(e)
               [] e.op = "naive_in_tz" -> J_naive_in_tz(e)
               [] e.op = "add_fixed" -> J_add_fixed(e)
+              [] e.op = "add_cal" -> J_add_cal(e)
+              [] e.op = "add_cal_date" -> J_add_cal_date(e)
               [] e.op = "year_prims" -> J_year_prims(e)
               [] e.op = "year_weekdays" -> J_year_weekdays(e)
               [] e.op = "year_getters" -> J_year_getters(e)
